@@ -367,7 +367,7 @@ def verdict_case(kind, ksr_xml, prev_doc, n_ksr, n_prev, with_prev=True, extra_p
         probs.append("OK message does not name the KSR id")
     # ---- model case
     parsed_r = vlib.run_impl(lambda: request_from_xml_file(kpath, kpath.read_bytes()))
-    if os.path.getsize(kpath) > 1024 * 1024 * 16:
+    if os.path.getsize(kpath) > 1024 * 1024:
         parsed = f"(Raise {EXN['RuntimeError']})"
     elif parsed_r[0] == "ok":
         parsed = f"(OK {coq_request(parsed_r[1], with_txt='handle', with_data='handle', with_pub=True, keep_order=True)})"
@@ -497,6 +497,11 @@ for rnd in range(3 if not THOROUGH else 12):
     longv = skrgen.honest_request("next-req", lastb["exp"] - D(days=11), n, [pub] + [[pub[-1]]] * (n - 1), zskpol, validity=D(days=25))
     verdict_case("signature-validity", enc(longv), sdoc, n, n_prev)
     verdict_case("horizon", enc(ok), sdoc, n, n_prev, extra_policy={"signature_horizon_days": 30, "signature_check_expire_horizon": True})
+    if rnd == 0:
+        for size_, tail_ in ((1024 * 1024 + 1, b""), (1024 * 1024 + 4096, b""), (1024 * 1024, b"\n<junk>" + b"x" * 65000 + b"</junk>")):
+            body_ = raw(ok)
+            big_ = body_ + b"\n" * (size_ - len(body_)) + tail_
+            verdict_case("beyond-loader-size-cap", big_, sdoc, n, n_prev, shape=shape_of(ok), expect="not-OK")
     verdict_case("truncated-xml", raw(ok)[: len(raw(ok)) // 2], sdoc, n, n_prev, shape=shape_of(ok))
     verdict_case("not-xml", b"hello", sdoc, n, n_prev, shape=shape_of(ok))
     verdict_case("previous-skr-wrong-count", enc(ok), sdoc, n, n_prev + 1)
